@@ -103,13 +103,44 @@ def exception_signature(exc):
     return 'exc:{}@{}:{}'.format(type(exc).__name__, os.path.basename(inner.filename), inner.name)
 
 
+class CaseTimeout(Exception):
+    pass
+
+
+def _alarm(signum, frame):
+    raise CaseTimeout()
+
+
+CASE_TIME_LIMIT = int(os.environ.get('VERIF_CASE_SECONDS', '90'))
+
+
+@contextlib.contextmanager
+def time_limit():
+    """a case that runs away (possible only with a broken library) is cut and counted as inconclusive"""
+    import signal
+    try:
+        old = signal.signal(signal.SIGALRM, _alarm)
+        signal.alarm(CASE_TIME_LIMIT)
+    except Exception:
+        old = None
+    try:
+        yield
+    finally:
+        if old is not None:
+            signal.alarm(0)
+            signal.signal(signal.SIGALRM, old)
+
+
 def safe_run_case(mod, case):
     """run_case with library chatter silenced and unanticipated library exceptions classified."""
     random.seed(0)
     try:
         with quiet():
             _reset_library_globals()
-            return mod.run_case(case)
+            with time_limit():
+                return mod.run_case(case)
+    except CaseTimeout:
+        return discard('case_time_limit_inconclusive')
     except HarnessError:
         raise
     except RecursionError:
@@ -207,9 +238,23 @@ def _stratum(mod, tier, name):
     raise HarnessError('unknown stratum ' + name)
 
 
+def _limit_memory():
+    # a mutated library can blow up (huge integers from an unmasked wire); turn that into MemoryError inside the
+    # case (classified like any other library exception) instead of an OOM kill of the whole check
+    try:
+        import resource
+        lim = 3 << 30
+        soft, hard = resource.getrlimit(resource.RLIMIT_AS)
+        if soft == resource.RLIM_INFINITY or soft > lim:
+            resource.setrlimit(resource.RLIMIT_AS, (lim, hard))
+    except Exception:
+        pass
+
+
 def _work(job):
     """job = (modname, tier, stratum name, kind, index, nshards, seed)"""
     modname, tier, sname, kind, idx, nshards, seed = job
+    _limit_memory()
     try:
         mod = importlib.import_module(modname)
         st = _stratum(mod, tier, sname)
@@ -263,7 +308,10 @@ def _run_hyp(mod, st, acc, idx, nshards, seed):
             with quiet():
                 _reset_library_globals()
                 try:
-                    res = run(case)
+                    with time_limit():
+                        res = run(case)
+                except CaseTimeout:
+                    res = discard('case_time_limit_inconclusive')
                 except HarnessError:
                     raise
                 except Exception as e:  # noqa
@@ -395,6 +443,7 @@ def main(argv=None):
     ap.add_argument('--only', help='run only the named stratum (debugging)')
     args = ap.parse_args(argv)
     prop = args.prop.upper()
+    _limit_memory()
     seed = args.seed if args.seed is not None else int(os.environ.get('VERIF_SEED', '1') or 1)
     modname = 'pbt.props.' + prop.lower()
     t0 = time.time()
